@@ -267,7 +267,7 @@ class C12(PropCheck):
         main += list(self.gen_adaptive(110 if q else 1500))
         main += list(self.gen_partition(3 if q else 10, 6 if q else 8))
         main += list(self.gen_rejection(14 if q else 150))
-        samp = list(self.gen_sampler(26 if q else 200))
+        samp = list(self.gen_sampler(26 if q else 150))
         main += list(self.gen_degenerate(6 if q else 40))
         # the sampler cases are the heaviest Coq terms: spread them evenly over the stream so that the case
         # files (consecutive chunks, evaluated in parallel) are balanced
@@ -482,10 +482,14 @@ class C12(PropCheck):
                 case['rounds'] = rounds
                 self.bump('sampler:rejection:rounds=%d' % len(rounds))
             else:
-                case['batch_size'] = r.choice([1, 2, 3, 5, 8])
                 case['n_samples'] = r.randint(2, 5)
                 case['rounds'] = r.choice([2, 2, 3])
                 case['quantile'] = r.choice([0.5, 0.34, 0.75])
+                # a first batch much larger than n_samples/quantile makes the population the best few of many
+                # rows and the later thresholds very tight (hundreds of simulations per round): keep
+                # batch_size <= ceil(n_samples / quantile)
+                need = -(-case['n_samples'] * 100 // int(case['quantile'] * 100))
+                case['batch_size'] = r.choice([b for b in [1, 2, 3, 5, 8] if b <= need])
                 self.bump('sampler:smc:batch_size=%d' % case['batch_size'])
                 self.bump('sampler:smc:rounds=%d' % case['rounds'])
             self.bump('sampler:driver=%s' % driver)
@@ -695,6 +699,7 @@ class C12(PropCheck):
         # probe rows: fixed, from a harness-side stream
         hrs = np.random.RandomState(case['seed'] + 1)
         probe = sampler_sim_rows(hrs.uniform(0, 4, 3), hrs.randn(3, len(case['sd'])), case)
+        ref = sampler_sim_rows(hrs.uniform(0, 4, 200), hrs.randn(200, len(case['sd'])), case)
         ops, obs, problems, info = [], [], [], dict(rejected_rows=0, empty_batches=0, rows=0, thr_rounds=0)
         pending_masks = []        # (index into ops, rows of the round, thresholds) - masks are filled in after the round
 
@@ -726,7 +731,6 @@ class C12(PropCheck):
             obs.append(['gen', enc(ad.generate(len(probe), with_values=values_of(probe)))])
 
         if case['driver'] == 'rejection':
-            prev_rows = None
             for k, spec in enumerate(case['rounds']):
                 b = spec['batch_size']
                 rej = elfi.Rejection(m, 'ad', batch_size=b, seed=case['seed'] + 17 * k)
@@ -739,10 +743,9 @@ class C12(PropCheck):
                 elif spec['objective'] == 'quantile':
                     kw['quantile'] = spec['quantile']
                 else:
-                    if prev_rows is None:
-                        ref = sampler_sim_rows(hrs.uniform(0, 4, 200), hrs.randn(200, len(case['sd'])), case)
-                    else:
-                        ref = prev_rows
+                    # thresholds = quantiles of the current nested distances over a harness-side reference
+                    # sample of the prior predictive (the rows of a round are draws from the same distribution,
+                    # so about the fraction below is accepted and the round stays short)
                     D = nested(ref)
                     q = spec['q']
                     while True:
@@ -780,7 +783,6 @@ class C12(PropCheck):
                 close_round(batch_idx, rows, thr)
                 ret = np.column_stack([np.asarray(res.outputs[nm]).reshape(len(res.outputs['ad']), -1) for nm in names])
                 after_update(ret, res.outputs['ad'], rows)
-                prev_rows = rows
         else:
             b = case['batch_size']
             smc = elfi.AdaptiveDistanceSMC(m, 'ad', batch_size=b, seed=case['seed'])
@@ -985,6 +987,9 @@ class C12(PropCheck):
             return '(CK {| k_metric := %s; k_kwargs := %s; k_impl := %s |})' % (cstr(case['metric']), kws, impl)
         if kind == 'sampler' and has_degenerate_round(out['ops']):
             self.bump('sampler:degenerate_round_skipped')
+            return None
+        if kind == 'sampler' and out['info']['rows'] > 400:
+            self.bump('sampler:more_than_400_rows_skipped')      # exact arithmetic over that many rows is too slow
             return None
         if kind in ('rejection', 'sampler'):
             ops, obs, observed = out['ops'], [o[:-1] if o[0] == 'sorted' else o for o in out['obs']], out['observed']
